@@ -44,7 +44,7 @@ use std::{
     collections::BTreeMap,
     future::Future,
     pin::Pin,
-    sync::{Arc, Mutex},
+    sync::Arc,
 };
 
 use n0_error::{AnyError, e, stack_error};
@@ -52,6 +52,7 @@ use n0_future::{
     join_all,
     task::{self, AbortOnDropHandle, JoinSet},
 };
+use tokio::sync::Mutex;
 use tokio_util::sync::CancellationToken;
 use tracing::{Instrument, debug, error, field::Empty, info_span, trace, warn};
 
@@ -427,19 +428,20 @@ impl Router {
     /// If some [`ProtocolHandler`] panicked in the accept loop, this will propagate
     /// that panic into the result here.
     pub async fn shutdown(&self) -> Result<(), n0_future::task::JoinError> {
-        if self.is_shutdown() {
-            return Ok(());
-        }
-
         // Trigger shutdown of the main run task by activating the cancel token.
         self.cancel_token.cancel();
 
         // Wait for the main task to terminate.
-
-        // MutexGuard is not held across await point
-        let task = self.task.lock().expect("poisoned").take();
-        if let Some(task) = task {
-            task.await?;
+        //
+        // The join handle stays in the shared slot until the task has terminated, and the
+        // (async) lock is held while waiting for it: concurrent callers, on any clone, queue
+        // up on the lock and return only once the run task is done. If the caller holding
+        // the lock is dropped, the next one takes over waiting.
+        let mut task = self.task.lock().await;
+        if let Some(handle) = task.as_mut() {
+            let res = handle.await;
+            *task = None;
+            res?;
         }
 
         Ok(())
